@@ -1,40 +1,72 @@
 import BSModel.Proofs.TokenizerRound
-/-! Tokenizer: the start-tag round trip with attributes, `<name k="v" …>`. -/
+/-! Tokenizer: the start-tag round trip with attributes, `<name k="v" j …>` and `<name k="v" …/>`. -/
 namespace BS.Tokenizer
 
-/-- `k="v"` -/
-def attrBody (kv : PStr × PStr) : PStr := kv.1 ++ 61 :: 34 :: (kv.2 ++ [34])
+/-- `k="w"` (the value as written, between double quotes) or just `k` -/
+def attrBody (kv : PStr × Option PStr) : PStr :=
+  kv.1 ++ (match kv.2 with | none => [] | some w => 61 :: 34 :: (w ++ [34]))
 
-/-- ` k="v"` for every attribute, then `>` and the rest of the input -/
-def attrsThenGt (rest : PStr) : List (PStr × PStr) → PStr
-  | [] => 62 :: rest
-  | kv :: more => 32 :: (attrBody kv ++ attrsThenGt rest more)
+/-- ` k="w"` for every attribute, then the tail `tl` (`>…` or `/>…`) -/
+def attrsThenGt (tl : PStr) : List (PStr × Option PStr) → PStr
+  | [] => tl
+  | kv :: more => 32 :: (attrBody kv ++ attrsThenGt tl more)
 
-/-- length of the ` k="v"` stretch -/
-def attrsLen : List (PStr × PStr) → Nat
+/-- length of the ` k="w"` stretch -/
+def attrsLen : List (PStr × Option PStr) → Nat
   | [] => 0
   | kv :: more => 1 + (attrBody kv).length + attrsLen more
 
-/-- `<name k="v" …>` -/
-def writeTag (name : PStr) (attrs : List (PStr × PStr)) : PStr := 60 :: (name ++ attrsThenGt [] attrs)
+/-- the end of a start tag: `>` or `/>` -/
+def tagEnd (slash : Bool) : PStr := if slash then [47, 62] else [62]
 
-/-- attribute names `[a-z][a-z0-9]*`, values without `"` -/
-def AttrOK (kv : PStr × PStr) : Prop := NameOK kv.1 ∧ ∀ x ∈ kv.2, x ≠ 34
+/-- `<name k="w" …>` / `<name k="w" …/>` -/
+def writeTag (name : PStr) (attrs : List (PStr × Option PStr)) (slash : Bool) : PStr :=
+  60 :: (name ++ attrsThenGt (tagEnd slash) attrs)
 
-theorem attrsThenGt_append (rest : PStr) (attrs : List (PStr × PStr)) :
-    attrsThenGt [] attrs ++ rest = attrsThenGt rest attrs := by
+/-- attribute names `[a-z][-.:_a-z0-9]*`, written values without `"` -/
+def AttrOK (kv : PStr × Option PStr) : Prop := NameOK kv.1 ∧ ∀ w, kv.2 = some w → ∀ x ∈ w, x ≠ 34
+
+/-- what the regular expressions see of a value: the quotes included -/
+def rawVal : Option PStr → Option PStr
+  | none => none
+  | some w => some (34 :: (w ++ [34]))
+
+/-- what may follow the last attribute: nothing `attrfind_tolerant` or the loops of `locatestarttagend_tolerant` take -/
+structure TailOK (tl : PStr) : Prop where
+  noAttr : ∀ prev, attrFind prev tl = none
+  wsSlash : wsSlashLen tl = 0
+  ws : spanLen isWs tl = 0
+  stop : ∀ c, tl.head? = some c → isAttrRest c = false
+  noVal : valueGroup tl = none
+
+theorem tailOK_gt (rest : PStr) : TailOK (62 :: rest) where
+  noAttr prev := by simp only [attrFind]; split <;> simp [isAttrFirst]
+  wsSlash := by simp [wsSlashLen, show isWs 62 = false by decide]
+  ws := by simp [spanLen, show isWs 62 = false by decide]
+  stop c h := by simp at h; subst h; decide
+  noVal := by simp [valueGroup, spanLen, show isWs 62 = false by decide]
+
+theorem tailOK_slash (rest : PStr) : TailOK (47 :: 62 :: rest) where
+  noAttr prev := by simp only [attrFind]; split <;> simp [isAttrFirst]
+  wsSlash := by simp [wsSlashLen, show isWs 47 = false by decide]
+  ws := by simp [spanLen, show isWs 47 = false by decide]
+  stop c h := by simp at h; subst h; decide
+  noVal := by simp [valueGroup, spanLen, show isWs 47 = false by decide]
+
+theorem attrsThenGt_append (tl rest : PStr) (attrs : List (PStr × Option PStr)) :
+    attrsThenGt tl attrs ++ rest = attrsThenGt (tl ++ rest) attrs := by
   induction attrs with
   | nil => simp [attrsThenGt]
   | cons kv more ih => simp [attrsThenGt, ih]
 
-theorem attrsThenGt_length (rest : PStr) (attrs : List (PStr × PStr)) :
-    (attrsThenGt rest attrs).length = attrsLen attrs + 1 + rest.length := by
+theorem attrsThenGt_length (tl : PStr) (attrs : List (PStr × Option PStr)) :
+    (attrsThenGt tl attrs).length = attrsLen attrs + tl.length := by
   induction attrs with
-  | nil => simp [attrsThenGt, attrsLen]; omega
+  | nil => simp [attrsThenGt, attrsLen]
   | cons kv more ih => simp [attrsThenGt, attrsLen, ih]; omega
 
-theorem attrsThenGt_drop (rest : PStr) (attrs : List (PStr × PStr)) :
-    (attrsThenGt rest attrs).drop (attrsLen attrs) = 62 :: rest := by
+theorem attrsThenGt_drop (tl : PStr) (attrs : List (PStr × Option PStr)) :
+    (attrsThenGt tl attrs).drop (attrsLen attrs) = tl := by
   induction attrs with
   | nil => simp [attrsThenGt, attrsLen]
   | cons kv more ih =>
@@ -42,55 +74,78 @@ theorem attrsThenGt_drop (rest : PStr) (attrs : List (PStr × PStr)) :
     rw [show 1 + (attrBody kv).length + attrsLen more = ((attrBody kv).length + attrsLen more) + 1 by omega,
       List.drop_succ_cons, ← List.drop_drop, List.drop_left, ih]
 
-/-- what follows an attribute: `>` or a space and a letter; `(?:\s|/(?!>))*` takes the space only -/
-theorem wsSlashLen_attrsThenGt (rest : PStr) (more : List (PStr × PStr)) (hm : ∀ kv ∈ more, AttrOK kv) :
-    wsSlashLen (attrsThenGt rest more) = if more = [] then 0 else 1 := by
+theorem lower_range (c : Nat) (h : isLower c = true) : 97 ≤ c ∧ c ≤ 122 := by
+  simpa [isLower] using h
+
+/-- what follows an attribute: the tail, or a space and a letter; `(?:\s|/(?!>))*` takes the space only -/
+theorem wsSlashLen_attrsThenGt (tl : PStr) (htl : TailOK tl) (more : List (PStr × Option PStr)) (hm : ∀ kv ∈ more, AttrOK kv) :
+    wsSlashLen (attrsThenGt tl more) = if more = [] then 0 else 1 := by
   cases more with
-  | nil => simp [attrsThenGt, wsSlashLen, show isWs 62 = false by decide]
+  | nil => simpa [attrsThenGt] using htl.wsSlash
   | cons kv more' =>
     obtain ⟨⟨c, t, hk, hc, _⟩, _⟩ := hm kv (by simp)
-    have hcl := isLowerAlnum_facts c (isLower_facts c hc).2
-    have hc47 : (c == 47) = false := by
-      have : isAttrFirst c = true := hcl.2.2.2.1
-      simp only [isAttrFirst, Bool.not_eq_true', Bool.or_eq_false_iff] at this
-      exact this.1.2
+    have hcl := isNameCh_facts c (isLower_facts c hc).2
+    have hr := lower_range c hc
+    have hc47 : (c == 47) = false := by simp; omega
     simp [attrsThenGt, attrBody, hk, wsSlashLen, show isWs 32 = true by decide, hcl.2.2.2.2.2, hc47]
 
+theorem attrsThenGt_stop (tl : PStr) (htl : TailOK tl) (more : List (PStr × Option PStr)) :
+    ∀ c, (attrsThenGt tl more).head? = some c → isAttrRest c = false := by
+  cases more with
+  | nil => simpa [attrsThenGt] using htl.stop
+  | cons kv more' => intro c h; simp [attrsThenGt] at h; subst h; decide
+
+theorem valueGroup_attrsThenGt (tl : PStr) (htl : TailOK tl) (more : List (PStr × Option PStr)) (hm : ∀ kv ∈ more, AttrOK kv) :
+    valueGroup (attrsThenGt tl more) = none := by
+  cases more with
+  | nil => simpa [attrsThenGt] using htl.noVal
+  | cons kv more' =>
+    obtain ⟨⟨c, t, hk, hc, _⟩, _⟩ := hm kv (by simp)
+    have hcl := isNameCh_facts c (isLower_facts c hc).2
+    have hr := lower_range c hc
+    have hc61 : (c == 61) = false := by simp; omega
+    simp [attrsThenGt, attrBody, hk, valueGroup, spanLen, show isWs 32 = true by decide, hcl.2.2.2.2.2, hc61]
+
 /-- `attrfind_tolerant` on one written attribute -/
-theorem attrFind_attrBody (prev : Nat) (rest : PStr) (kv : PStr × PStr) (more : List (PStr × PStr))
-    (hp : isLookbehind prev = true) (hkv : AttrOK kv) (hm : ∀ kv ∈ more, AttrOK kv) :
-    attrFind prev (attrBody kv ++ attrsThenGt rest more) =
-      some (kv.1, some (34 :: (kv.2 ++ [34])), (attrBody kv).length + (if more = [] then 0 else 1)) := by
+theorem attrFind_attrBody (prev : Nat) (tl : PStr) (htl : TailOK tl) (kv : PStr × Option PStr)
+    (more : List (PStr × Option PStr)) (hp : isLookbehind prev = true) (hkv : AttrOK kv) (hm : ∀ kv ∈ more, AttrOK kv) :
+    attrFind prev (attrBody kv ++ attrsThenGt tl more) =
+      some (kv.1, rawVal kv.2, (attrBody kv).length + (if more = [] then 0 else 1)) := by
   obtain ⟨k, v⟩ := kv
   obtain ⟨⟨c, t, hk, hc, ht⟩, hv⟩ := hkv
   simp only at hk hv
   subst hk
-  have hcl := isLowerAlnum_facts c (isLower_facts c hc).2
-  have hspan : spanLen isAttrRest (t ++ 61 :: 34 :: (v ++ 34 :: attrsThenGt rest more)) = t.length :=
-    spanLen_append_stop _ _ _ (fun x hx => (isLowerAlnum_facts x (ht x hx)).2.2.1) (by intro c' h; simp at h; subst h; decide)
-  have hfind : findCh 34 (v ++ 34 :: attrsThenGt rest more) = some v.length := findCh_append_first 34 v _ hv
-  have hvg : valueGroup (61 :: 34 :: (v ++ 34 :: attrsThenGt rest more)) = some (1, v.length + 2) := by
-    simp [valueGroup, spanLen, show isWs 61 = false by decide, show isWs 34 = false by decide, hfind]
-  have hws := wsSlashLen_attrsThenGt rest more hm
-  simp only [attrFind, hp, if_true, attrBody, List.cons_append, List.append_assoc, List.nil_append, hcl.2.2.2.1, hspan, List.drop_left, hvg,
-    List.drop_succ_cons, List.drop_zero]
-  have e1 : List.take (v.length + 2) (34 :: (v ++ 34 :: attrsThenGt rest more)) = 34 :: (v ++ [34]) := by
-    rw [show v.length + 2 = (34 :: (v ++ [34])).length by simp]
-    rw [show (34 :: (v ++ 34 :: attrsThenGt rest more)) = (34 :: (v ++ [34])) ++ attrsThenGt rest more by simp]
-    exact List.take_left
-  have e2 : List.drop (1 + (v.length + 2)) (61 :: 34 :: (v ++ 34 :: attrsThenGt rest more)) = attrsThenGt rest more := by
-    rw [show 1 + (v.length + 2) = (61 :: 34 :: (v ++ [34])).length by simp; omega]
-    rw [show (61 :: 34 :: (v ++ 34 :: attrsThenGt rest more)) = (61 :: 34 :: (v ++ [34])) ++ attrsThenGt rest more by simp]
-    exact List.drop_left
-  rw [e1, e2, hws]
-  simp only [List.take_left', List.length_cons, List.length_append, List.length_nil, Option.some.injEq, Prod.mk.injEq, true_and]
-  split <;> omega
-
-theorem attrFind_gt (prev : Nat) (rest : PStr) : attrFind prev (62 :: rest) = none := by
-  simp only [attrFind]
-  split
-  · simp [isAttrFirst]
-  · rfl
+  have hcl := isNameCh_facts c (isLower_facts c hc).2
+  have hws := wsSlashLen_attrsThenGt tl htl more hm
+  cases v with
+  | none =>
+    have hspan : spanLen isAttrRest (t ++ attrsThenGt tl more) = t.length :=
+      spanLen_append_stop _ _ _ (fun x hx => (isNameCh_facts x (ht x hx)).2.2.1) (attrsThenGt_stop tl htl more)
+    have hvg := valueGroup_attrsThenGt tl htl more hm
+    simp only [attrFind, hp, if_true, attrBody, List.cons_append, List.append_nil, hcl.2.2.2.1, hspan, List.drop_left, hvg, hws,
+      rawVal, List.take_left', List.length_cons]
+    simp only [Option.some.injEq, Prod.mk.injEq, true_and]
+    split <;> omega
+  | some v =>
+    have hv' : ∀ x ∈ v, x ≠ 34 := hv v rfl
+    have hspan : spanLen isAttrRest (t ++ 61 :: 34 :: (v ++ 34 :: attrsThenGt tl more)) = t.length :=
+      spanLen_append_stop _ _ _ (fun x hx => (isNameCh_facts x (ht x hx)).2.2.1) (by intro c' h; simp at h; subst h; decide)
+    have hfind : findCh 34 (v ++ 34 :: attrsThenGt tl more) = some v.length := findCh_append_first 34 v _ hv'
+    have hvg : valueGroup (61 :: 34 :: (v ++ 34 :: attrsThenGt tl more)) = some (1, v.length + 2) := by
+      simp [valueGroup, spanLen, show isWs 61 = false by decide, show isWs 34 = false by decide, hfind]
+    simp only [attrFind, hp, if_true, attrBody, List.cons_append, List.append_assoc, List.nil_append, hcl.2.2.2.1, hspan, List.drop_left, hvg,
+      List.drop_succ_cons, List.drop_zero, rawVal]
+    have e1 : List.take (v.length + 2) (34 :: (v ++ 34 :: attrsThenGt tl more)) = 34 :: (v ++ [34]) := by
+      rw [show v.length + 2 = (34 :: (v ++ [34])).length by simp]
+      rw [show (34 :: (v ++ 34 :: attrsThenGt tl more)) = (34 :: (v ++ [34])) ++ attrsThenGt tl more by simp]
+      exact List.take_left
+    have e2 : List.drop (1 + (v.length + 2)) (61 :: 34 :: (v ++ 34 :: attrsThenGt tl more)) = attrsThenGt tl more := by
+      rw [show 1 + (v.length + 2) = (61 :: 34 :: (v ++ [34])).length by simp; omega]
+      rw [show (61 :: 34 :: (v ++ 34 :: attrsThenGt tl more)) = (61 :: 34 :: (v ++ [34])) ++ attrsThenGt tl more by simp]
+      exact List.drop_left
+    rw [e1, e2, hws]
+    simp only [List.take_left', List.length_cons, List.length_append, List.length_nil, Option.some.injEq, Prod.mk.injEq, true_and]
+    split <;> omega
 
 theorem drop_append_cons (a : PStr) (x : Nat) (b : PStr) : (a ++ x :: b).drop (a.length + 1) = b := by
   rw [show a ++ x :: b = (a ++ [x]) ++ b by simp, show a.length + 1 = (a ++ [x]).length by simp]
@@ -102,168 +157,238 @@ theorem charBefore_append_cons (d : Nat) (a : PStr) (x : Nat) (b : PStr) : charB
     exact List.take_left
   simp [charBefore, this]
 
-/-- the attribute loop of `locatestarttagend_tolerant` runs over all written attributes and stops at the `>` -/
-theorem locAttrs_attrs (rest : PStr) : ∀ (more : List (PStr × PStr)) (kv : PStr × PStr) (prev f : Nat),
+/-- the attribute loop of `locatestarttagend_tolerant` runs over all written attributes and stops at the tail -/
+theorem locAttrs_attrs (tl : PStr) (htl : TailOK tl) : ∀ (more : List (PStr × Option PStr)) (kv : PStr × Option PStr) (prev f : Nat),
     isLookbehind prev = true → AttrOK kv → (∀ kv ∈ more, AttrOK kv) → more.length + 2 ≤ f →
-    locAttrs f prev (attrBody kv ++ attrsThenGt rest more) = some ((attrBody kv).length + attrsLen more) := by
+    locAttrs f prev (attrBody kv ++ attrsThenGt tl more) = some ((attrBody kv).length + attrsLen more) := by
   intro more
   induction more with
   | nil =>
     intro kv prev f hp hkv hm hf
     obtain ⟨f', rfl⟩ : ∃ f', f = f' + 2 := ⟨f - 2, by simp at hf; omega⟩
-    have ha := attrFind_attrBody prev rest kv [] hp hkv hm
+    have ha := attrFind_attrBody prev tl htl kv [] hp hkv hm
     simp only [if_true, Nat.add_zero, attrsThenGt] at ha
-    simp only [locAttrs, attrsThenGt, ha, List.drop_left, attrFind_gt, attrsLen]
+    simp only [locAttrs, attrsThenGt, ha, List.drop_left, htl.noAttr, attrsLen]
     simp
   | cons kv' more' ih =>
     intro kv prev f hp hkv hm hf
     obtain ⟨f', rfl⟩ : ∃ f', f = f' + 1 := ⟨f - 1, by simp at hf; omega⟩
-    have ha := attrFind_attrBody prev rest kv (kv' :: more') hp hkv hm
+    have ha := attrFind_attrBody prev tl htl kv (kv' :: more') hp hkv hm
     simp only [reduceCtorEq, if_false, attrsThenGt] at ha
     have hih := ih kv' 32 f' (by decide) (hm kv' (by simp)) (fun x hx => hm x (by simp [hx]))
       (by simp only [List.length_cons] at hf; omega)
     simp only [locAttrs, attrsThenGt, ha, drop_append_cons, charBefore_append_cons, hih, attrsLen, Option.map_some]
     congr 1; omega
 
-theorem attrValue_quoted (P : Params) (v : PStr) (hu : P.unescape v = v) : attrValue P (some (34 :: (v ++ [34]))) = some v := by
-  have h1 : (34 :: (v ++ [34])).getLast? = some 34 := by
-    show ((34 :: v) ++ [34]).getLast? = some 34
-    exact List.getLast?_concat
-  simp only [attrValue, List.head?_cons, h1, List.drop_succ_cons, List.drop_zero, List.dropLast_concat]
-  simp [hu]
+/-- the value `parse_starttag` stores for a written value: quotes stripped, `unescape` applied unless it is empty -/
+def valOf (P : Params) (w : PStr) : PStr := if w.isEmpty then w else P.unescape w
 
-/-- the `while k < endpos` loop of `parse_starttag` collects exactly the written attributes and stops at the `>` -/
-theorem attrLoop_attrs (P : Params) (rest : PStr) : ∀ (more : List (PStr × PStr)) (kv : PStr × PStr) (pre : PStr)
+theorem attrValue_rawVal (P : Params) (v : Option PStr) : attrValue P (rawVal v) = v.map (valOf P) := by
+  cases v with
+  | none => rfl
+  | some v =>
+    have h1 : (34 :: (v ++ [34])).getLast? = some 34 := by
+      show ((34 :: v) ++ [34]).getLast? = some 34
+      exact List.getLast?_concat
+    simp only [rawVal, attrValue, List.head?_cons, h1, List.drop_succ_cons, List.drop_zero, List.dropLast_concat]
+    simp [valOf]
+
+/-- the `while k < endpos` loop of `parse_starttag` collects exactly the written attributes and stops at the tail -/
+theorem attrLoop_attrs (P : Params) (tl : PStr) (htl : TailOK tl) (e : Nat) (he : 0 < e) :
+    ∀ (more : List (PStr × Option PStr)) (kv : PStr × Option PStr) (pre : PStr)
     (acc : List (PStr × Option PStr)) (f : Nat),
     isLookbehind (pre.getLast?.getD 0) = true → AttrOK kv → (∀ kv ∈ more, AttrOK kv) →
-    (∀ x ∈ kv :: more, P.lower x.1 = x.1 ∧ P.unescape x.2 = x.2) → more.length + 2 ≤ f →
-    attrLoop P (pre ++ (attrBody kv ++ attrsThenGt rest more)) (pre.length + (attrBody kv).length + attrsLen more + 1) f
+    (∀ x ∈ kv :: more, P.lower x.1 = x.1) → more.length + 2 ≤ f →
+    attrLoop P (pre ++ (attrBody kv ++ attrsThenGt tl more)) (pre.length + (attrBody kv).length + attrsLen more + e) f
         pre.length acc =
-      some (acc ++ (kv :: more).map (fun x => (x.1, some x.2)), pre.length + (attrBody kv).length + attrsLen more) := by
+      some (acc ++ (kv :: more).map (fun x => (x.1, x.2.map (valOf P))), pre.length + (attrBody kv).length + attrsLen more) := by
   intro more
   induction more with
   | nil =>
     intro kv pre acc f hp hkv hm hP hf
     obtain ⟨f', rfl⟩ : ∃ f', f = f' + 2 := ⟨f - 2, by simp at hf; omega⟩
-    have ha := attrFind_attrBody (pre.getLast?.getD 0) rest kv [] hp hkv hm
+    have ha := attrFind_attrBody (pre.getLast?.getD 0) tl htl kv [] hp hkv hm
     simp only [if_true, Nat.add_zero] at ha
-    have hcb : charBefore 0 (pre ++ (attrBody kv ++ attrsThenGt rest [])) pre.length = pre.getLast?.getD 0 := by
+    have hcb : charBefore 0 (pre ++ (attrBody kv ++ attrsThenGt tl [])) pre.length = pre.getLast?.getD 0 := by
       simp [charBefore]
-    obtain ⟨hl, hu⟩ := hP kv (by simp)
-    have hdrop2 : (pre ++ (attrBody kv ++ attrsThenGt rest [])).drop (pre.length + (attrBody kv).length) = 62 :: rest := by
+    have hl := hP kv (by simp)
+    have hdrop2 : (pre ++ (attrBody kv ++ attrsThenGt tl [])).drop (pre.length + (attrBody kv).length) = tl := by
       rw [← List.drop_drop, List.drop_left, List.drop_left]; rfl
-    simp only [attrLoop, attrsLen, Nat.add_zero, show pre.length < pre.length + (attrBody kv).length + 1 by omega, if_true,
-      List.drop_left, hcb, ha, hl, attrValue_quoted P kv.2 hu, show pre.length + (attrBody kv).length <
-        pre.length + (attrBody kv).length + 1 by omega, hdrop2, attrFind_gt]
+    simp only [attrLoop, attrsLen, Nat.add_zero, show pre.length < pre.length + (attrBody kv).length + e by omega, if_true,
+      List.drop_left, hcb, ha, hl, attrValue_rawVal, show pre.length + (attrBody kv).length <
+        pre.length + (attrBody kv).length + e by omega, hdrop2, htl.noAttr]
     simp
   | cons kv' more' ih =>
     intro kv pre acc f hp hkv hm hP hf
     obtain ⟨f', rfl⟩ : ∃ f', f = f' + 1 := ⟨f - 1, by simp at hf; omega⟩
-    have ha := attrFind_attrBody (pre.getLast?.getD 0) rest kv (kv' :: more') hp hkv hm
+    have ha := attrFind_attrBody (pre.getLast?.getD 0) tl htl kv (kv' :: more') hp hkv hm
     simp only [reduceCtorEq, if_false] at ha
-    have hcb : charBefore 0 (pre ++ (attrBody kv ++ attrsThenGt rest (kv' :: more'))) pre.length = pre.getLast?.getD 0 := by
+    have hcb : charBefore 0 (pre ++ (attrBody kv ++ attrsThenGt tl (kv' :: more'))) pre.length = pre.getLast?.getD 0 := by
       simp [charBefore]
-    obtain ⟨hl, hu⟩ := hP kv (by simp)
-    have hih := ih kv' (pre ++ (attrBody kv ++ [32])) (acc ++ [(kv.1, some kv.2)]) f' (by simp; decide) (hm kv' (by simp))
+    have hl := hP kv (by simp)
+    have hlast : (pre ++ (attrBody kv ++ [32])).getLast? = some 32 := by
+      rw [← List.append_assoc]; exact List.getLast?_concat
+    have hih := ih kv' (pre ++ (attrBody kv ++ [32])) (acc ++ [(kv.1, kv.2.map (valOf P))]) f' (by rw [hlast]; decide)
+      (hm kv' (by simp))
       (fun x hx => hm x (by simp [hx])) (fun x hx => hP x (by simp only [List.mem_cons] at hx ⊢; exact Or.inr hx))
-      (by simp at hf ⊢; omega)
-    have hs : pre ++ (attrBody kv ++ attrsThenGt rest (kv' :: more')) =
-        (pre ++ (attrBody kv ++ [32])) ++ (attrBody kv' ++ attrsThenGt rest more') := by simp [attrsThenGt]
+      (by simp only [List.length_cons] at hf; omega)
+    have hs : pre ++ (attrBody kv ++ attrsThenGt tl (kv' :: more')) =
+        (pre ++ (attrBody kv ++ [32])) ++ (attrBody kv' ++ attrsThenGt tl more') := by simp [attrsThenGt]
     have hlen : (pre ++ (attrBody kv ++ [32])).length = pre.length + ((attrBody kv).length + 1) := by simp
-    have hend : pre.length + (attrBody kv).length + attrsLen (kv' :: more') + 1 =
-        (pre ++ (attrBody kv ++ [32])).length + (attrBody kv').length + attrsLen more' + 1 := by
+    have hend : pre.length + (attrBody kv).length + attrsLen (kv' :: more') + e =
+        (pre ++ (attrBody kv ++ [32])).length + (attrBody kv').length + attrsLen more' + e := by
       simp [attrsLen]; omega
-    simp only [attrLoop, show pre.length < pre.length + (attrBody kv).length + attrsLen (kv' :: more') + 1 by omega, if_true,
-      List.drop_left, hcb, ha, hl, attrValue_quoted P kv.2 hu]
+    simp only [attrLoop, show pre.length < pre.length + (attrBody kv).length + attrsLen (kv' :: more') + e by omega, if_true,
+      List.drop_left, hcb, ha, hl, attrValue_rawVal]
     rw [hend, ← hlen, hs, hih]
     simp [attrsLen]; omega
 
-theorem attrsLen_ge (attrs : List (PStr × PStr)) : attrs.length ≤ attrsLen attrs := by
+theorem attrsLen_ge (attrs : List (PStr × Option PStr)) : attrs.length ≤ attrsLen attrs := by
   induction attrs with
   | nil => simp [attrsLen]
   | cons kv more ih => simp only [attrsLen, List.length_cons]; omega
 
-theorem writeTag_nil (name : PStr) : writeTag name [] = writeStartTag0 name := by
-  simp [writeTag, writeStartTag0, attrsThenGt]
+theorem tagEnd_append (slash : Bool) (rest : PStr) :
+    tagEnd slash ++ rest = if slash then 47 :: 62 :: rest else 62 :: rest := by
+  cases slash <;> rfl
 
-/-- a start tag `<name k="v" …>` comes back as `handle_starttag(name, [(k, v), …])`, ending just after the `>` -/
-theorem parseStartTag_write (P : Params) (cd : Option PStr) (name rest : PStr) (attrs : List (PStr × PStr))
-    (hn : NameOK name) (hl : P.lower name = name) (ha : ∀ kv ∈ attrs, AttrOK kv)
-    (hP : ∀ kv ∈ attrs, P.lower kv.1 = kv.1 ∧ P.unescape kv.2 = kv.2) :
-    parseStartTag P cd (writeTag name attrs ++ rest) =
-      .ok (.st name (attrs.map fun kv => (kv.1, some kv.2))) (writeTag name attrs).length
-        (if cdataContentElements.contains name then some name else cd) := by
+theorem tailOK_tagEnd (slash : Bool) (rest : PStr) : TailOK (tagEnd slash ++ rest) := by
+  cases slash
+  · exact tailOK_gt rest
+  · exact tailOK_slash rest
+
+/-- what `parse_starttag` reports for a written start tag -/
+def startTok (slash : Bool) (name : PStr) (attrs : List (PStr × Option PStr)) : Tok :=
+  if slash then .se name attrs else .st name attrs
+
+/-- `<name/>`: the `[\s/]*` of `locatestarttagend_tolerant` takes the slash -/
+theorem parseStartTag_write_slash0 (P : Params) (cd : Option PStr) (name rest : PStr) (hn : NameOK name)
+    (hl : P.lower name = name) :
+    parseStartTag P cd (writeTag name [] true ++ rest) = .ok (.se name []) (writeTag name [] true).length cd := by
+  obtain ⟨c, t, rfl, hc, ht⟩ := hn
+  have hcf := isLower_facts c hc
+  have hs : writeTag (c :: t) [] true ++ rest = 60 :: c :: (t ++ 47 :: 62 :: rest) := by
+    simp [writeTag, attrsThenGt, tagEnd]
+  have hname : spanLen isTagNameCh (t ++ 47 :: 62 :: rest) = t.length :=
+    spanLen_append_stop _ _ _ (fun x hx => (isNameCh_facts x (ht x hx)).2.1) (by intro c' h; simp at h; subst h; decide)
+  have hdrop : (60 :: c :: (t ++ 47 :: 62 :: rest)).drop (2 + t.length) = 47 :: 62 :: rest := by
+    rw [show 2 + t.length = t.length + 1 + 1 by omega]; simp
+  have hdrop1 : (60 :: c :: (t ++ 47 :: 62 :: rest)).drop (2 + t.length + 1) = 62 :: rest := by
+    rw [← List.drop_drop, hdrop]; rfl
+  have hwsl : spanLen isWsSlash (47 :: 62 :: rest) = 1 := by
+    simp [spanLen, isWsSlash, show isWs 47 = false by decide, show isWs 62 = false by decide]
+  have hws : spanLen isWs (62 :: rest) = 0 := (tailOK_gt rest).ws
+  have hloc : locateStartTagEnd (60 :: c :: (t ++ 47 :: 62 :: rest)) = some (2 + t.length + 1) := by
+    simp only [locateStartTagEnd, List.drop_succ_cons, List.drop_zero, hname, hdrop, hwsl, hdrop1, locAttrs,
+      (tailOK_gt rest).noAttr, hws, Nat.add_zero]
+  have hchk : checkWholeStartTag (60 :: c :: (t ++ 47 :: 62 :: rest)) = some (some (2 + t.length + 1 + 1)) := by
+    simp [checkWholeStartTag, hloc, hdrop1]
+  have htf : tagFind (c :: (t ++ 47 :: 62 :: rest)) = some (c :: t, 1 + t.length + 0) := by
+    simp [tagFind, hcf.1, hname, wsSlashLen, show isWs 47 = false by decide]
+  have hk : 1 + (1 + t.length + 0) = 2 + t.length := by omega
+  have hlb := charBefore_name c t (47 :: 62 :: rest) hcf.2 ht
+  have hloop : attrLoop P (60 :: c :: (t ++ 47 :: 62 :: rest)) (2 + t.length + 1 + 1) ((60 :: c :: (t ++ 47 :: 62 :: rest)).length + 1)
+      (2 + t.length) [] = some ([], 2 + t.length) := by
+    simp only [attrLoop, show 2 + t.length < 2 + t.length + 1 + 1 by omega, if_true, attrFind, hlb, Bool.false_eq_true, if_false]
+  have htake : ((60 :: c :: (t ++ 47 :: 62 :: rest)).take (2 + t.length + 1 + 1)).drop (2 + t.length) = [47, 62] := by
+    rw [List.drop_take, hdrop, show 2 + t.length + 1 + 1 - (2 + t.length) = 2 by omega]; rfl
+  have hstrip : strip [47, 62] = [47, 62] := by decide
+  rw [hs]
+  simp only [parseStartTag, hchk, List.drop_succ_cons, List.drop_zero, htf, hk, hloop, htake, hstrip, hl]
+  simp [writeTag, attrsThenGt, tagEnd]; omega
+
+/-- **a written start tag** `<name k="w" j …>` or `<name k="w" j …/>` comes back as `handle_starttag` /
+    `handle_startendtag` with the name and, in order, the attributes (value: quotes stripped and unescaped, `None`
+    where none was written), ending just after the `>`; `<script>`/`<style>` switch CDATA mode on -/
+theorem parseStartTag_write (P : Params) (cd : Option PStr) (name rest : PStr) (attrs : List (PStr × Option PStr))
+    (slash : Bool) (hn : NameOK name) (hl : P.lower name = name) (ha : ∀ kv ∈ attrs, AttrOK kv)
+    (hP : ∀ kv ∈ attrs, P.lower kv.1 = kv.1) :
+    parseStartTag P cd (writeTag name attrs slash ++ rest) =
+      .ok (startTok slash name (attrs.map fun kv => (kv.1, kv.2.map (valOf P)))) (writeTag name attrs slash).length
+        (if slash then cd else if cdataContentElements.contains name then some name else cd) := by
   cases attrs with
-  | nil => rw [writeTag_nil]; simpa using parseStartTag_write_partial P cd name rest hn hl
+  | nil =>
+    cases slash
+    · have := parseStartTag_write_partial P cd name rest hn hl
+      simpa [writeTag, writeStartTag0, attrsThenGt, tagEnd, startTok] using this
+    · simpa [startTok] using parseStartTag_write_slash0 P cd name rest hn hl
   | cons kv more =>
     obtain ⟨c, t, rfl, hc, ht⟩ := hn
     have hcf := isLower_facts c hc
     have hkv := ha kv (by simp)
     have hm : ∀ x ∈ more, AttrOK x := fun x hx => ha x (by simp [hx])
     obtain ⟨⟨c', t', hk', hc', _⟩, _⟩ := hkv
-    have hc'l := isLowerAlnum_facts c' (isLower_facts c' hc').2
-    -- the text
+    have hc'l := isNameCh_facts c' (isLower_facts c' hc').2
+    have hc'r := lower_range c' hc'
+    have htl := tailOK_tagEnd slash rest
+    generalize htlv : tagEnd slash ++ rest = tl at htl
     let L := (attrBody kv).length + attrsLen more
-    have hs : writeTag (c :: t) (kv :: more) ++ rest =
-        60 :: c :: (t ++ 32 :: (attrBody kv ++ attrsThenGt rest more)) := by
-      simp [writeTag, attrsThenGt, attrsThenGt_append]
-    have hs2 : (60 :: c :: (t ++ 32 :: (attrBody kv ++ attrsThenGt rest more))) =
-        (60 :: c :: (t ++ [32])) ++ (attrBody kv ++ attrsThenGt rest more) := by simp
-    have hname : spanLen isTagNameCh (t ++ 32 :: (attrBody kv ++ attrsThenGt rest more)) = t.length :=
-      spanLen_append_stop _ _ _ (fun x hx => (isLowerAlnum_facts x (ht x hx)).2.1) (by intro c'' h; simp at h; subst h; decide)
-    have hdrop2 : (60 :: c :: (t ++ 32 :: (attrBody kv ++ attrsThenGt rest more))).drop (2 + t.length) =
-        32 :: (attrBody kv ++ attrsThenGt rest more) := by
+    let E := (tagEnd slash).length
+    have hE : 0 < E := by simp only [E, tagEnd]; cases slash <;> simp
+    have hs : writeTag (c :: t) (kv :: more) slash ++ rest =
+        60 :: c :: (t ++ 32 :: (attrBody kv ++ attrsThenGt tl more)) := by
+      simp [writeTag, attrsThenGt, attrsThenGt_append, htlv]
+    have hs2 : (60 :: c :: (t ++ 32 :: (attrBody kv ++ attrsThenGt tl more))) =
+        (60 :: c :: (t ++ [32])) ++ (attrBody kv ++ attrsThenGt tl more) := by simp
+    have hname : spanLen isTagNameCh (t ++ 32 :: (attrBody kv ++ attrsThenGt tl more)) = t.length :=
+      spanLen_append_stop _ _ _ (fun x hx => (isNameCh_facts x (ht x hx)).2.1) (by intro c'' h; simp at h; subst h; decide)
+    have hdrop2 : (60 :: c :: (t ++ 32 :: (attrBody kv ++ attrsThenGt tl more))).drop (2 + t.length) =
+        32 :: (attrBody kv ++ attrsThenGt tl more) := by
       rw [show 2 + t.length = t.length + 1 + 1 by omega]; simp
-    have hc'47 : (c' == 47) = false := by
-      have : isAttrFirst c' = true := hc'l.2.2.2.1
-      simp only [isAttrFirst, Bool.not_eq_true', Bool.or_eq_false_iff] at this
-      exact this.1.2
-    have hwsl : spanLen isWsSlash (32 :: (attrBody kv ++ attrsThenGt rest more)) = 1 := by
+    have hc'47 : (c' == 47) = false := by simp; omega
+    have hwsl : spanLen isWsSlash (32 :: (attrBody kv ++ attrsThenGt tl more)) = 1 := by
       simp [spanLen, attrBody, hk', isWsSlash, show isWs 32 = true by decide, hc'l.2.2.2.2.2, hc'47]
     have hp : 2 + t.length + 1 = (60 :: c :: (t ++ [32])).length := by simp; omega
-    have hcb : charBefore 0 (60 :: c :: (t ++ 32 :: (attrBody kv ++ attrsThenGt rest more))) (2 + t.length + 1) = 32 := by
-      have := charBefore_append_cons 0 (60 :: c :: t) 32 (attrBody kv ++ attrsThenGt rest more)
+    have hcb : charBefore 0 (60 :: c :: (t ++ 32 :: (attrBody kv ++ attrsThenGt tl more))) (2 + t.length + 1) = 32 := by
+      have := charBefore_append_cons 0 (60 :: c :: t) 32 (attrBody kv ++ attrsThenGt tl more)
       simpa [show 2 + t.length + 1 = t.length + 1 + 1 + 1 by omega] using this
-    have hdrop3 : (60 :: c :: (t ++ 32 :: (attrBody kv ++ attrsThenGt rest more))).drop (2 + t.length + 1) =
-        attrBody kv ++ attrsThenGt rest more := by
+    have hdrop3 : (60 :: c :: (t ++ 32 :: (attrBody kv ++ attrsThenGt tl more))).drop (2 + t.length + 1) =
+        attrBody kv ++ attrsThenGt tl more := by
       rw [hs2, hp]; exact List.drop_left
-    have hlen : (60 :: c :: (t ++ 32 :: (attrBody kv ++ attrsThenGt rest more))).length = 2 + t.length + 1 + L + 1 + rest.length := by
+    have hlen : (60 :: c :: (t ++ 32 :: (attrBody kv ++ attrsThenGt tl more))).length = 2 + t.length + 1 + L + tl.length := by
       simp [attrsThenGt_length, L]; omega
-    have hfuel : more.length + 2 ≤ (60 :: c :: (t ++ 32 :: (attrBody kv ++ attrsThenGt rest more))).length + 1 := by
+    have hfuel : more.length + 2 ≤ (60 :: c :: (t ++ 32 :: (attrBody kv ++ attrsThenGt tl more))).length + 1 := by
       rw [hlen]; have := attrsLen_ge more; simp only [L]; omega
-    have hloc := locAttrs_attrs rest more kv 32 _ (by decide) (ha kv (by simp)) hm hfuel
-    have hdropL : (60 :: c :: (t ++ 32 :: (attrBody kv ++ attrsThenGt rest more))).drop (2 + t.length + 1 + L) = 62 :: rest := by
+    have hloc := locAttrs_attrs tl htl more kv 32 _ (by decide) (ha kv (by simp)) hm hfuel
+    have hdropL : (60 :: c :: (t ++ 32 :: (attrBody kv ++ attrsThenGt tl more))).drop (2 + t.length + 1 + L) = tl := by
       rw [← List.drop_drop, hdrop3, ← List.drop_drop, List.drop_left, attrsThenGt_drop]
-    have hws : spanLen isWs (62 :: rest) = 0 := spanLen_zero _ _ (by intro c'' h; simp at h; subst h; decide)
-    have hlocate : locateStartTagEnd (60 :: c :: (t ++ 32 :: (attrBody kv ++ attrsThenGt rest more))) = some (2 + t.length + 1 + L) := by
-      simp only [locateStartTagEnd, List.drop_succ_cons, List.drop_zero, hname, hdrop2, hwsl, hcb, hdrop3, hloc, hdropL, hws,
+    have hlocate : locateStartTagEnd (60 :: c :: (t ++ 32 :: (attrBody kv ++ attrsThenGt tl more))) = some (2 + t.length + 1 + L) := by
+      simp only [locateStartTagEnd, List.drop_succ_cons, List.drop_zero, hname, hdrop2, hwsl, hcb, hdrop3, hloc, hdropL, htl.ws,
         Nat.add_zero, L]
-    have hchk : checkWholeStartTag (60 :: c :: (t ++ 32 :: (attrBody kv ++ attrsThenGt rest more))) =
-        some (some (2 + t.length + 1 + L + 1)) := by
-      simp [checkWholeStartTag, hlocate, hdropL]
-    have hwss : wsSlashLen (32 :: (attrBody kv ++ attrsThenGt rest more)) = 1 := by
-      have := wsSlashLen_attrsThenGt rest (kv :: more) ha
+    have hchk : checkWholeStartTag (60 :: c :: (t ++ 32 :: (attrBody kv ++ attrsThenGt tl more))) =
+        some (some (2 + t.length + 1 + L + E)) := by
+      unfold checkWholeStartTag
+      rw [hlocate]
+      simp only []
+      rw [hdropL]
+      subst htlv
+      cases slash <;> simp [tagEnd, sw, E]
+    have hwss : wsSlashLen (32 :: (attrBody kv ++ attrsThenGt tl more)) = 1 := by
+      have := wsSlashLen_attrsThenGt tl htl (kv :: more) ha
       simpa [attrsThenGt] using this
-    have htf : tagFind (c :: (t ++ 32 :: (attrBody kv ++ attrsThenGt rest more))) = some (c :: t, 1 + t.length + 1) := by
+    have htf : tagFind (c :: (t ++ 32 :: (attrBody kv ++ attrsThenGt tl more))) = some (c :: t, 1 + t.length + 1) := by
       simp [tagFind, hcf.1, hname, hwss]
     have hk : 1 + (1 + t.length + 1) = (60 :: c :: (t ++ [32])).length := by simp; omega
     have hlast : (60 :: c :: (t ++ [32])).getLast? = some 32 := by
       show ((60 :: c :: t) ++ [32]).getLast? = some 32
       exact List.getLast?_concat
-    have hloop := attrLoop_attrs P rest more kv (60 :: c :: (t ++ [32])) [] _ (by rw [hlast]; decide) (ha kv (by simp)) hm hP hfuel
-    have hend : 2 + t.length + 1 + L + 1 = (60 :: c :: (t ++ [32])).length + (attrBody kv).length + attrsLen more + 1 := by
+    have hloop := attrLoop_attrs P tl htl E hE more kv (60 :: c :: (t ++ [32])) [] _ (by rw [hlast]; decide) (ha kv (by simp)) hm hP hfuel
+    have hend : 2 + t.length + 1 + L + E = (60 :: c :: (t ++ [32])).length + (attrBody kv).length + attrsLen more + E := by
       simp [L]; omega
     have hkf : (60 :: c :: (t ++ [32])).length + (attrBody kv).length + attrsLen more = 2 + t.length + 1 + L := by
       simp [L]; omega
-    have htake : ((60 :: c :: (t ++ 32 :: (attrBody kv ++ attrsThenGt rest more))).take (2 + t.length + 1 + L + 1)).drop
-        (2 + t.length + 1 + L) = [62] := by
-      rw [List.drop_take, hdropL]; simp
-    have hstrip : strip [62] = [62] := by decide
+    have htake : ((60 :: c :: (t ++ 32 :: (attrBody kv ++ attrsThenGt tl more))).take (2 + t.length + 1 + L + E)).drop
+        (2 + t.length + 1 + L) = tagEnd slash := by
+      rw [List.drop_take, hdropL, ← htlv, show 2 + t.length + 1 + L + E - (2 + t.length + 1 + L) = (tagEnd slash).length by simp [E]]
+      exact List.take_left
     rw [← hend, ← hs2] at hloop
     rw [hs]
-    simp only [parseStartTag, hchk, List.drop_succ_cons, List.drop_zero, htf, hk, hloop, hkf, htake, hstrip]
-    simp only [hl, List.nil_append, beq_self_eq_true, if_true]
-    congr 1
-    simp [writeTag, attrsThenGt_length, L, attrsThenGt]; omega
+    simp only [parseStartTag, hchk, List.drop_succ_cons, List.drop_zero, htf, hk, hloop, hkf, htake]
+    have hlenw : (writeTag (c :: t) (kv :: more) slash).length = 2 + t.length + 1 + L + E := by
+      simp [writeTag, attrsThenGt_length, L, E, attrsThenGt]; omega
+    rw [hlenw]
+    cases slash
+    · simp [tagEnd, show strip [62] = [62] by decide, hl, startTok]
+    · simp [tagEnd, show strip [47, 62] = [47, 62] by decide, hl, startTok]
 
 end BS.Tokenizer
